@@ -218,7 +218,8 @@ func zzWaitFor(st zzGateStep, tag int, site string) {
 			done = zzHits[strconv.Itoa(st.untilG)+"|"+st.untilSite] >= st.untilHit || zzExited[st.untilG]
 		case "block":
 			// the other goroutine blocked: approximated by "no gate event from it for 150ms"
-			done = time.Since(zzLastEvent[st.untilG]) > 150*time.Millisecond || zzExited[st.untilG]
+			last, seen := zzLastEvent[st.untilG]
+			done = (seen && time.Since(last) > 150*time.Millisecond) || zzExited[st.untilG]
 		}
 		if done || time.Now().After(deadline) {
 			if os.Getenv("VERIF_GATE_DEBUG") != "" {
